@@ -7,6 +7,8 @@ import (
 	"sort"
 	"testing"
 
+	"pgregory.net/rapid"
+
 	"verif/harness/internal/dom"
 	"verif/harness/internal/kvh"
 	"verif/harness/internal/pbt"
@@ -165,7 +167,7 @@ func run(c kvh.Case) (flags, pbt.Info, error) {
 				return fail(i, op, "Get(previously removed %d) = (%d,%v), want (%d,%v)", lastRemoved, v, ok, wv, wok)
 			}
 		}
-		if n <= 48 || i%8 == 0 || i == len(ops)-1 {
+		if n <= 48 || i%8 == 0 && n <= 2048 || i%128 == 0 || i == len(ops)-1 {
 			if err := compareAll(c.Kind, box, m); err != nil {
 				return fail(i, op, "%v", err)
 			}
@@ -273,6 +275,9 @@ func runBidi(c kvh.Case) (flags, pbt.Info, error) {
 				return fail(i, op, "Get(%d) = (%d,%v), want (%d,%v)", k, v, ok, wv, wok)
 			}
 		}
+		if n > 2048 && i%128 != 0 && i != len(ops)-1 {
+			continue // thousands of pairs: the full listing is compared every 128th step
+		}
 		keys, vals := box.Keys(), box.Values()
 		var wk, wv []int
 		for k, v := range m.Fwd {
@@ -326,12 +331,49 @@ func params(kind string) kvh.GenParams {
 
 // wideParams: B-trees of high order filled with hundreds of keys, so that nodes
 // really hold dozens of entries (per-node search strategies, wide splits and merges).
+// genBigDrain: thousands of live keys (past 4096 and 8192), then most of them removed
+// again — oldest first, newest first or strided — and a few more operations: maps
+// that release or rebuild their storage when they have shrunk far below their peak.
+func genBigDrain(kind string) func(t *rapid.T) kvh.Case {
+	return func(t *rapid.T) kvh.Case {
+		c := kvh.Case{Kind: kind}
+		if kvh.Ordered(kind) {
+			c.Cmp = []string{dom.Nat, dom.Rev}[rapid.IntRange(0, 1).Draw(t, "cmp")]
+		}
+		if kind == kvh.TreeBidi {
+			c.VCmp = dom.Nat
+		}
+		if kind == kvh.BTree {
+			c.Order = []int{3, 4, 16, 129}[rapid.IntRange(0, 3).Draw(t, "order")]
+		}
+		n := []int{4200, 8300, 9100}[rapid.IntRange(0, 2).Draw(t, "peak")]
+		c.Ops = append(c.Ops, kvh.Op{O: "putrun", K: 0, V: 1, N: n, S: 1})
+		keep := rapid.IntRange(1, n/5).Draw(t, "keep")
+		switch rapid.IntRange(0, 2).Draw(t, "drain") {
+		case 0: // oldest first
+			c.Ops = append(c.Ops, kvh.Op{O: "remrun", K: 0, N: n - keep, S: 1})
+		case 1: // newest first
+			c.Ops = append(c.Ops, kvh.Op{O: "remrun", K: n - 1, N: n - keep, S: -1})
+		default: // every other key, then the rest from the front
+			c.Ops = append(c.Ops, kvh.Op{O: "remrun", K: 0, N: n / 2, S: 2}, kvh.Op{O: "remrun", K: 1, N: n/2 - keep, S: 2})
+		}
+		for i := 0; i < 6; i++ {
+			k := rapid.IntRange(0, n).Draw(t, "k")
+			c.Ops = append(c.Ops, kvh.Op{O: "put", K: k, V: 7000 + i}, kvh.Op{O: "rem", K: rapid.IntRange(0, n).Draw(t, "r")}, kvh.Op{O: "get", K: k})
+		}
+		return c
+	}
+}
+
 func wideParams() kvh.GenParams {
 	return kvh.GenParams{Kind: kvh.BTree, MaxOps: 60, RunMax: pbt.Size(160), Cmps: []string{dom.Nat, dom.Rev, dom.Mag}, Orders: []int{34, 40, 64, 100, 128}, Ranges: []int{400, pbt.Size(3000)}}
 }
 
 func TestGenerated(t *testing.T) {
 	pbt.Run(t, pbt.Target[kvh.Case]{Name: "btree/wide-nodes", Checks: 400, Gen: kvh.Gen(wideParams()), Check: check})
+	for _, kind := range []string{kvh.HashMap, kvh.LinkedHashMap, kvh.HashBidi, kvh.TreeBidi, kvh.TreeMap, kvh.RBT, kvh.AVL, kvh.BTree} {
+		pbt.Run(t, pbt.Target[kvh.Case]{Name: kind + "/big-drain", Checks: 1, Gen: genBigDrain(kind), Check: check})
+	}
 	for _, kind := range kvh.AllKinds {
 		n := 12000
 		switch kind {
